@@ -365,17 +365,58 @@ func (c *Ctx) execInvoke(fr *frame, st *State, call *ssa.CallCommon, recv *Val, 
 			}
 			return v
 		}
+		var out *Val
 		switch res.Len() {
 		case 0:
 			return nil
 		case 1:
-			return mk(0, res.At(0).Type())
+			out = mk(0, res.At(0).Type())
+		default:
+			parts := make([]*Val, res.Len())
+			for i := range parts {
+				parts[i] = mk(i, res.At(i).Type())
+			}
+			out = makeTuple(res, parts)
 		}
-		parts := make([]*Val, res.Len())
-		for i := range parts {
-			parts[i] = mk(i, res.At(i).Type())
+		// for the standard image types the observer is the real method:
+		// tag == T  ==>  result == T.method(receiver)
+		if res.Len() == 1 && len(args) == 0 {
+			for _, tn := range [][2]string{{"image", "NRGBA"}, {"image", "RGBA"}, {"image", "YCbCr"}} {
+				sp := c.W.Pkgs[tn[0]]
+				if sp == nil {
+					continue
+				}
+				tm, ok := sp.Members[tn[1]].(*ssa.Type)
+				if !ok {
+					continue
+				}
+				pt := types.NewPointer(tm.Type())
+				sel := c.W.Prog.MethodSets.MethodSet(pt).Lookup(call.Method.Pkg(), call.Method.Name())
+				if sel == nil {
+					continue
+				}
+				m := c.W.Prog.MethodValue(sel)
+				if m == nil || m.Blocks == nil || !c.canInline(m) {
+					continue
+				}
+				tag := Const(32, uint64(c.W.typeTag(pt)))
+				guard := And(Eq(l[0], tag), Neq(l[1], Const(32, 0)))
+				if guard.IsFalse() {
+					continue
+				}
+				tmp := st.clone()
+				tmp.pc = And(st.pc, guard)
+				c.quiet++
+				n := len(c.assumes)
+				rv := c.inlineCall(tmp, m, nil, []*Val{mkVal(pt, []*Term{l[1]})}, pos)
+				c.quiet--
+				c.assumes = c.assumes[:n]
+				if rv != nil && rv.L != nil && len(rv.L) == len(out.L) {
+					c.assume(st.pc, Implies(guard, eqVal(out, rv)))
+				}
+			}
 		}
-		return makeTuple(res, parts)
+		return out
 	}
 	c.abstracted("interface call " + key)
 	return c.havocCall(st, call.Signature(), args, call.Method.Name(), false)
